@@ -24,11 +24,16 @@ LEVEL_TEXT = ("Proof (F/M): for every byte string the models of the table footer
               "exactly the checksummed record the index designates for the address. REFUTED and kept as open known findings: content is never compared "
               "with the address (records exchanged under valid checksums; iteration labels chunks with the unchecksummed index's address).")
 LEVEL_NOTE = ("Trusted: Coq kernel, translator constants, Go harness + Python glue. Modelled, not verified: snappy decode (opaque after the checksum), "
+              "zstd (dictionary creation / decompression: the archive model abstains once a dictionary span is read), allocations between 128 MiB and 4 GiB "
+              "(model abstains; the worker runs under a 3 GiB RLIMIT_AS), archive getMany / tolerantIterate and every store-level call (NewLocalStore / "
+              "NewLocalJournalingStore + Root/Has/Get/GetMany/HasMany on a database with one corrupted file) are oracle-only: no model prediction, strict "
+              "no-panic / content-hashes-to-address verdict; the mmap archive index reader is not exercised; "
               "hash.Of (the harness reports content-hash = address), errgroup goroutines of getMany (model: lookup phase + the argument that batch buffers cover "
-              "their members), os.File.ReadAt short-read semantics. Archives and store-level opens are not modelled (see report).")
+              "their members), os.File.ReadAt short-read semantics.")
 THEOREMS = ["no_panic_open_table", "no_panic_table", "no_panic_journal_scan", "no_panic_manifest", "oracle_model", "no_misread_get",
-            "no_misread_refuted", "iterate_mislabel_refuted"]
-REFUTED = ["no_misread_refuted", "iterate_mislabel_refuted"]
+            "no_misread_refuted", "iterate_mislabel_refuted", "psearch_total", "no_panic_archive_has", "archive_open_panic_only_alloc",
+            "no_panic_archive_refuted", "archive_misread_refuted", "archive_iterate_mislabel_refuted"]
+REFUTED = ["no_misread_refuted", "iterate_mislabel_refuted", "no_panic_archive_refuted", "archive_misread_refuted", "archive_iterate_mislabel_refuted"]
 RULE = ("files written by the real writers (table files of 1-6 chunks, journals of 2-7 records, v5/v4 manifests of 0-3 specs) with: every single-byte "
         "corruption of index+footer (thorough: 3 values per position; quick: one rotating value), sampled data-area flips, every/sampled truncation, "
         "field-targeted edits (counts, lengths, ordinals, prefixes, magic), record swaps with valid checksums, appended tails, manifest count disagreement; "
@@ -41,7 +46,7 @@ ASSUMPTIONS = ["ResolveShortHash is given at most 32 base32 characters (hash.Par
 REQUIRED_TAGS = ["table", "journal", "manifest", "t-pristine", "t-open-err", "t-get-err", "t-has-err", "t-iter-err", "t-gm-err", "t-iter-mislabel",
                  "t-absent", "t-misread", "j-ok", "j-err", "j-dataloss", "j-truncated", "m-ok", "m-err",
                  "reg:length-lt-checksum-size", "reg:ordinal-ge-count", "reg:length-gt-iterate-buffer", "reg:journal-short-field", "reg:manifest-bad-root", "reg:resolve-short-hash",
-                 "archive", "a-open-ok", "a-open-err", "a-get-ok", "a-get-err", "a-get-panic", "a-misread", "a-iter-ok", "a-iter-panic", "a-iter-bad", "t-extras",
+                 "archive", "a-open-ok", "a-open-err", "a-get-ok", "a-get-err", "a-get-panic", "a-misread", "a-iter-ok", "a-iter-panic", "a-iter-bad", "a-ref-swap-clean", "t-extras",
                  "store", "s-table-manifest", "s-table-table", "s-journal-journal", "s-journal-idx", "s-archive-archive", "s-open-ok", "s-open-err", "s-op-err", "s-all-ok",
                  "resolve", "r-short-ok", "r-long-ok", "r-short-err", "r-long-err", "r-found", "r-none", "r-last-tuple-long"]
 
@@ -352,7 +357,7 @@ def archive_cases(rng, tier):
                 A([{"op": "aset", "reg": "refs", "pos": 8 * i + 4, "bytes": be32(v)}], "a-ref-data", extras=(i == 0))
             A([{"op": "aset", "reg": "refs", "pos": 8 * i, "bytes": be32(1)}], "a-ref-dict")
         if c >= 2:
-            A([{"op": "aset", "reg": "refs", "pos": 4, "bytes": be32(2)}, {"op": "aset", "reg": "refs", "pos": 12, "bytes": be32(1)}], "a-ref-swap", gm=True, extras=True)
+            A([{"op": "aswaprefs", "i": 0, "j": 1}], "a-ref-swap", gm=True, extras=True)
         # span offsets (uint64 each): equal neighbours (zero length), decreasing (length wraps >= 2^63), low-byte flips
         A([{"op": "aset", "reg": "spans", "pos": 0, "bytes": be64(0)}], "a-span", extras=True)
         A([{"op": "aset", "reg": "spans", "pos": 0, "bytes": be64(60000)}], "a-span")
@@ -617,6 +622,8 @@ def classify(case, out):
             t.append("a-get-panic")
         if "bad" in gets:
             t.append("a-misread")
+            if "panic" not in gets and o["iter"] != "panic" and case.get("label") == "a-ref-swap":
+                t.append("a-ref-swap-clean")
         if any(g in ("eof", "crc", "empty", "err", "snappy") for g in gets):
             t.append("a-get-err")
         if "ok" in gets:
